@@ -519,7 +519,8 @@ class io_uring_context::read_sender {
         return;
       }
       self.stopCallback_.destruct();
-      if (get_stop_token(self.receiver_).stop_requested()) {
+      if (self.result_ < 0 &&
+          get_stop_token(self.receiver_).stop_requested()) {
         unifex::set_done(std::move(self.receiver_));
       } else if (self.result_ >= 0) {
         if constexpr (noexcept(unifex::set_value(
@@ -721,7 +722,8 @@ class io_uring_context::write_sender {
         return;
       }
       self.stopCallback_.destruct();
-      if (get_stop_token(self.receiver_).stop_requested()) {
+      if (self.result_ < 0 &&
+          get_stop_token(self.receiver_).stop_requested()) {
         unifex::set_done(std::move(self.receiver_));
       } else if (self.result_ >= 0) {
         if constexpr (noexcept(unifex::set_value(
@@ -1231,7 +1233,8 @@ class io_uring_context::accept_sender {
         return;
       }
       self.stopCallback_.destruct();
-      if (get_stop_token(self.receiver_).stop_requested()) {
+      if (self.result_ < 0 &&
+          get_stop_token(self.receiver_).stop_requested()) {
         unifex::set_done(std::move(self.receiver_));
       } else if (self.result_ >= 0) {
         if constexpr (noexcept(unifex::set_value(
